@@ -5,7 +5,7 @@ import warnings
 import numpy as np
 from hypothesis import strategies as st
 
-from twv.runner import Sub, Violation
+from twv.runner import Sub, Violation, digest
 from twv.gens import fl, xs, ys
 
 import traffic_weaver.process as process
@@ -15,22 +15,32 @@ PROPERTY = "C16"
 LEVEL = "exploration"
 RULE = ("Hypothesis builds series of 5..80 samples (eight spacing kinds incl. integer dtype, non-uniform gaps with "
         "max/min ratio <= 1e2, 1e6 offset; values: integers, dyadics, smooth + noise over seven decades of scale, "
-        "ties, constant, sign-changing, 1e6 offset, pure sine, affine; ndarray / list / int64 containers) and a "
+        "ties, constant, sign-changing, 1e6 offset, pure sine, affine, and 'bigoffset' = +-1e8..1e10 + O(1) sine + "
+        "noise, |mean|/std >= 1e7; ndarray / list / int64 containers) and a "
         "smoothing condition s = 0 (int or float), s log-uniform in [1e-4, 1e2], or s omitted (process level). "
         "Weaver.smooth(s), process.spline_smooth(x, y, s) and Weaver.to_function() (optionally after a shift/scale "
-        "so that the working series differs from the original) are run on them. Non-trivial: for the smoothing "
+        "so that the working series differs from the original) are run on them; the history sub-check applies 3..8 "
+        "steps (shift_y, scale_y, smooth, trend, seeded noise, shift_x, scale_x) to ONE Weaver and takes "
+        "to_function() (default s / explicit 0) before and after several of them. Non-trivial: for the smoothing "
         "condition 0 < s < residual of the least-squares cubic polynomial (the constraint is active); for "
         "to_function / s = 0 a non-affine series; for affine data a non-zero slope and s != 0; for the default s a "
         "series whose least-squares cubic leaves a residual. Distinct = distinct full input. Runs in which SciPy "
         "emits a FITPACK RuntimeWarning/UserWarning are counted as discarded_fitpack and not judged.")
 ASSUMPTIONS = ["x strictly increasing with max/min gap ratio <= 1e2, >= 5 samples, s in {0} U [1e-4, 1e2]",
                "runs with a FITPACK non-convergence warning are discarded (2-3 % of the cases), as the statement says",
-               "sum((z-y)^2) <= 1.002*s + 1e-12*sum(y^2) (measured max ratio 1.00098); identities 1e-8*max|y| "
-               "(measured 8e-15); affine data 1e-8*(|p|*max|x|+|q|)",
-               "default s: besides equality with the explicit s = len(y)*var(y) run (1e-6*max|y| at 50 probe points, "
-               "measured 0), the result is compared with the least-squares cubic polynomial (1e-6*max|y|, measured "
-               "1e-13): len(y)*var(y) is the residual of the best constant, hence at least that of the best cubic, "
-               "and for such s the degree-3 smoothing spline is by definition that polynomial (FITPACK ier=-2)"]
+               "tolerances are relative to the variation of the data, spread = max y - min y, plus a rounding term "
+               "relative to max|y| (so a common offset of 1e9 hides nothing): sum((z-y)^2) <= 1.002*s + "
+               "len(y)*(1e-12*max|y|)^2 (measured max ratio 1.00098, rounding floor rms 30 eps*max|y|); identities "
+               "and to_function 1e-8*spread + 1e-12*max|y| (measured 38 eps*max|y|); affine data "
+               "1e-8*|p|*(x_last-x_first) + 1e-11*(|p|*max|x|+|q|) (measured <= 5e-4 of it)",
+               "default s: besides equality with the explicit s = len(y)*var(y) run (1e-6*spread + 1e-12*max|y| at 50 "
+               "probe points, measured 0), the result is compared with the least-squares cubic polynomial fitted to "
+               "the centred values (same tolerance, measured 430 eps*max|y|): len(y)*var(y) is the residual of the "
+               "best constant, hence at least that of the best cubic, "
+               "and for such s the degree-3 smoothing spline is by definition that polynomial (FITPACK ier=-2)",
+               "history: x-changing steps are only generated when they keep x strictly increasing in float "
+               "arithmetic; a violation seen once for a case is reported again if Hypothesis re-executes the same "
+               "case in the same process (identity-keyed caching faults depend on memory addresses)"]
 TECHNIQUE = ("Hypothesis-generated series x smoothing conditions; the smoothing condition, the identities and the "
              "default-s clause are evaluated on the outputs (math.fsum residuals, closed-form affine map, NumPy "
              "least-squares cubic on a Legendre basis)")
@@ -65,29 +75,47 @@ def lsq_cubic(x, y):
     """least-squares cubic polynomial of the samples; returns (evaluator, residual sum of squares)."""
     x = np.array(x, dtype=float)
     y = np.array(y, dtype=float)
+    mean = math.fsum(float(v) for v in y) / len(y)
+    yc = y - mean            # the fit is done on centred values: a huge common offset costs no accuracy
     mid = (x[0] + x[-1]) / 2
     half = (x[-1] - x[0]) / 2
     basis = np.polynomial.legendre.legvander((x - mid) / half, 3)
-    coef = np.linalg.lstsq(basis, y, rcond=None)[0]
+    coef = np.linalg.lstsq(basis, yc, rcond=None)[0]
 
     def ev(q):
-        return np.polynomial.legendre.legvander((np.asarray(q, dtype=float) - mid) / half, 3) @ coef
+        return np.polynomial.legendre.legvander((np.asarray(q, dtype=float) - mid) / half, 3) @ coef + mean
 
-    return ev, math.fsum(float(v) ** 2 for v in (ev(x) - y))
+    return ev, math.fsum(float(v) ** 2 for v in (basis @ coef - yc))
 
 
 def sum_sq_dev(z, y):
     return math.fsum((float(a) - float(b)) ** 2 for a, b in zip(z, y))
 
 
-def sum_sq(y):
-    return math.fsum(float(v) ** 2 for v in y)
-
-
 def n_times_var(y):
     m = len(y)
     mean = math.fsum(float(v) for v in y) / m
     return math.fsum((float(v) - mean) ** 2 for v in y)
+
+
+def spread(y):
+    return max(float(v) for v in y) - min(float(v) for v in y)
+
+
+def ymax(y):
+    return max(abs(float(v)) for v in y)
+
+
+def tol_for(y, rel):
+    """rel * (max y - min y) + 1e-12 * max|y|: relative to the variation of the data, so that a huge common offset
+    does not hide errors of the size of the signal, plus a rounding term (measured on the pinned tree: identities
+    <= 38 eps*max|y|, default-s fit vs least-squares cubic <= 430 eps*max|y|; 1e-12 = 4500 eps)."""
+    return rel * spread(y) + 1e-12 * ymax(y)
+
+
+def has_residual(y, resid):
+    """the least-squares cubic leaves a residual that is not rounding noise (measured relative to the variation)"""
+    return resid > len(y) * (1e-6 * spread(y) + 1e-12 * ymax(y)) ** 2
 
 
 def check_array(res, n, where):
@@ -112,7 +140,8 @@ def check_close(got, want, tol, what):
 
 def check_condition(z, y, s, what):
     dev = sum_sq_dev(z, y)
-    bound = 1.002 * s + 1e-12 * sum_sq(y)
+    # rounding floor: every value of z carries an error of a few eps*max|y| (measured rms 30 eps): m*(1e-12*max|y|)^2
+    bound = 1.002 * s + len(y) * (1e-12 * ymax(y)) ** 2
     if not dev <= bound:
         raise Violation(f"{what}: sum((z-y)^2) = {dev!r} exceeds the smoothing condition s = {s!r} "
                         f"(allowed {bound!r})")
@@ -133,12 +162,13 @@ def positive_s(draw):
 
 
 @st.composite
-def base(draw, ctx, ykind=None, nonconstant=False):
-    m = draw(st.one_of(st.integers(5, 12), st.integers(5, 80)))
-    xd = draw(xs(m, max_ratio=1e2))
+def base(draw, ctx, ykind=None, nonconstant=False, m_hi=80, offsets=True):
+    m = draw(st.one_of(st.integers(5, 12), st.integers(5, m_hi)))
+    xd = draw(xs(m, max_ratio=1e2, offsets=offsets))
     x = xd["x"]
     case = dict(x=x, xkind=xd["kind"], xint=bool(xd["int"]))
-    kind = ykind or draw(st.sampled_from(["gens", "gens", "gens", "noisy", "noisy", "sine", "affine"]))
+    kind = ykind or draw(st.sampled_from(["gens", "gens", "gens", "noisy", "noisy", "sine", "affine", "bigoffset",
+                                          "bigoffset"]))
     if kind == "affine":
         p = draw(st.one_of(st.sampled_from([1.0, -1.0, 2.0, 0.5, -0.25, 3.0]),
                            st.builds(lambda sg, e: sg * 10.0 ** e, st.sampled_from([-1.0, 1.0]), fl(-3.0, 3.0)),
@@ -152,6 +182,15 @@ def base(draw, ctx, ykind=None, nonconstant=False):
         amp = draw(fl(0.0, 1.0))
         noise = draw(st.lists(fl(-0.5, 0.5), min_size=m, max_size=m))
         case.update(y=[scale * (amp * math.sin(w * i + ph) + noise[i]) for i in range(m)], ykind="noisy")
+    elif kind == "bigoffset":
+        # |mean| / std between 1e6 and 1e10: one-pass variance formulas and float32 arithmetic lose everything
+        off = draw(st.sampled_from([-1.0, 1.0])) * 10.0 ** draw(fl(8.0, 10.0))
+        amp = 10.0 ** draw(fl(-0.5, 1.5))
+        w = draw(fl(0.05, 1.5))
+        ph = draw(fl(0.0, 6.28))
+        a_sin = draw(fl(0.0, 1.0))
+        noise = draw(st.lists(fl(-0.5, 0.5), min_size=m, max_size=m))
+        case.update(y=[off + amp * (a_sin * math.sin(w * i + ph) + noise[i]) for i in range(m)], ykind="bigoffset")
     elif kind == "sine":
         scale = 10.0 ** draw(fl(-2.0, 3.0))
         w = draw(fl(0.05, 1.5))
@@ -329,16 +368,16 @@ def to_function_body(ctx, case):
         ctx.count("discarded_fitpack")
         return
     at_samples = check_array(np.asarray(at_samples), m, "to_function()(x)")
-    scale = float(np.max(np.abs(gy)))
-    check_close(at_samples, gy, 1e-8 * scale, "to_function() does not pass through the samples returned by get()")
+    tol = tol_for(gy, 1e-8)
+    check_close(at_samples, gy, tol, "to_function() does not pass through the samples returned by get()")
     if case["pre"] is None:
-        check_close(at_samples, np.array(case["y"], dtype=float), 1e-8 * scale,
+        check_close(at_samples, np.array(case["y"], dtype=float), tol,
                     "to_function() does not pass through the samples")
     check_array(np.asarray(at_probes), len(probes), "to_function() at points between the samples")
     sc = np.asarray(at_scalar, dtype=float)
-    if sc.shape != () or not abs(float(sc) - float(gy[k])) <= 1e-8 * scale:
+    if sc.shape != () or not abs(float(sc) - float(gy[k])) <= tol:
         raise Violation(f"to_function()({float(gx[k])!r}) = {at_scalar!r}, get() has {float(gy[k])!r} there")
-    check_close(np.asarray(at_list, dtype=float).reshape(-1), [gy[0], gy[-1]], 1e-8 * scale,
+    check_close(np.asarray(at_list, dtype=float).reshape(-1), [gy[0], gy[-1]], tol,
                 "to_function() at the two end samples (list argument)")
     after = get_pair(w, "to_function")
     if not (np.array_equal(np.asarray(after[0], dtype=float), gx) and np.array_equal(np.asarray(after[1], float), gy)):
@@ -347,7 +386,7 @@ def to_function_body(ctx, case):
     cls.add("pre:" + (case["pre"][0] if case["pre"] else "none"))
     cls.add("s:default" if case["explicit_zero"] is None else "s:explicit-zero")
     _, resid = lsq_cubic(case["x"], case["y"])
-    nt = resid > 1e-12 * sum_sq(case["y"])
+    nt = has_residual(case["y"], resid)
     cls.add("non-cubic-data" if nt else "cubic-or-simpler-data")
     ctx.record(case, cls, nontrivial=nt)
 
@@ -368,13 +407,13 @@ def condition_body(ctx, case):
 
 def identity_body(ctx, case):
     y = np.array(case["y"], dtype=float)
-    tol = 1e-8 * float(np.max(np.abs(y)))
+    tol = tol_for(case["y"], 1e-8)
     z = smooth_both(ctx, case, case["s"], lambda v, label: check_close(v, y, tol, label + " is not the identity"))
     if z is None:
         return
     _, resid = lsq_cubic(case["x"], case["y"])
     cls = common_classes(case) | s_classes(case, resid)
-    nt = resid > 1e-12 * sum_sq(case["y"])
+    nt = has_residual(case["y"], resid)
     cls.add("non-cubic-data" if nt else "cubic-or-simpler-data")
     ctx.record(case, cls, nontrivial=nt)
 
@@ -382,7 +421,10 @@ def identity_body(ctx, case):
 def affine_body(ctx, case):
     s = case["s"]
     x, y = case["x"], np.array(case["y"], dtype=float)
-    tol = 1e-8 * (abs(case["p"]) * max(abs(float(x[0])), abs(float(x[-1]))) + abs(case["c"]))
+    # relative to the variation of the affine data over the range, plus a rounding term relative to the magnitude of
+    # the quantities p*x and q that formed the samples
+    tol = (1e-8 * abs(case["p"]) * (float(x[-1]) - float(x[0]))
+           + 1e-11 * (abs(case["p"]) * max(abs(float(x[0])), abs(float(x[-1]))) + abs(case["c"])))
     if s is None:
         xi, yi = inputs(case)
         with Fitpack() as fp:
@@ -423,20 +465,24 @@ def default_body(ctx, case):
     z_def = check_array(np.asarray(z_def), 50, "spline_smooth(x, y) at the probe points")
     z_exp = check_array(np.asarray(z_exp), 50, "spline_smooth(x, y, len*var) at the probe points")
     z_none = check_array(np.asarray(z_none), 50, "spline_smooth(x, y, s=None) at the probe points")
-    scale = max(abs(float(v)) for v in y)
-    check_close(z_def, z_exp, 1e-6 * scale,
+    tol = tol_for(y, 1e-6)
+    check_close(z_def, z_exp, tol,
                 f"spline_smooth with s omitted differs from s = len(y)*var(y) = {s_ref!r}")
-    check_close(z_none, z_exp, 1e-6 * scale,
+    check_close(z_none, z_exp, tol,
                 f"spline_smooth with s=None differs from s = len(y)*var(y) = {s_ref!r}")
     cubic, resid = lsq_cubic(x, y)
-    check_close(z_def, cubic(probes), 1e-6 * scale,
+    check_close(z_def, cubic(probes), tol,
                 "spline_smooth with s omitted is not the smoothing spline for s = len(y)*var(y) (which is >= the "
                 "residual of the least-squares cubic, so the fit is that cubic)")
     cls = common_classes(case)
     m = len(y)
     std = math.sqrt(s_ref / m)
     cls.add("std<1" if std < 1 else "std>=1")
-    nt = resid > 1e-12 * sum_sq(y)
+    mean = math.fsum(float(v) for v in y) / m
+    if std > 0:
+        r = abs(mean) / std
+        cls.add("|mean|/std<1e3" if r < 1e3 else "|mean|/std 1e3..1e7" if r < 1e7 else "|mean|/std>=1e7")
+    nt = has_residual(y, resid)
     if nt:
         if m * std < resid:
             cls.add("len*std < cubic residual")
@@ -446,6 +492,162 @@ def default_body(ctx, case):
     else:
         cls.add("cubic-or-simpler-data")
     ctx.record(case, cls, nontrivial=nt)
+
+
+# ---- histories on one Weaver -------------------------------------------------------------------------------------
+
+PROBE_T = [0.0, 0.13, 0.37, 0.5, 0.71, 0.9, 1.0]
+
+
+def trend_fun(spec):
+    kind = spec[0]
+    if kind == "lin":
+        return lambda t: spec[1] * t
+    if kind == "quad":
+        return lambda t: spec[1] * t * t
+    return lambda t: spec[1] * math.sin(spec[2] * t)
+
+
+@st.composite
+def history_case(draw, ctx):
+    case = draw(base(ctx, m_hi=40, offsets=False))
+    xsim = [float(v) for v in case["x"]]
+
+    def strict(v):
+        return all(b > a for a, b in zip(v[:-1], v[1:]))
+
+    tf = st.sampled_from([None, None, "default", "default", 0, 0.0])
+    steps = []
+    n = draw(st.integers(3, 8))
+    for i in range(n):
+        op = draw(st.sampled_from(["shift_y", "scale_y", "shift_y", "scale_y", "smooth", "trend", "noise", "shift_x",
+                                   "scale_x"]))
+        if op == "shift_x":
+            d = draw(st.one_of(st.integers(-64, 64).map(lambda k: k / 8.0), fl(-100.0, 100.0)))
+            new = [v + d for v in xsim]
+            if strict(new):
+                xsim = new
+                step = dict(op=op, arg=d)
+            else:
+                step = dict(op="shift_y", arg=d)
+        elif op == "scale_x":
+            c = draw(st.sampled_from([2.0, 0.5, 4.0, 3.0, 1.5]))
+            new = [v * c for v in xsim]
+            if strict(new):
+                xsim = new
+                step = dict(op=op, arg=c)
+            else:
+                step = dict(op="scale_y", arg=c)
+        elif op == "shift_y":
+            step = dict(op=op, arg=draw(st.one_of(st.sampled_from([1.0, -1.0, 0.5, 10.0, -3.0]), fl(-100.0, 100.0))))
+        elif op == "scale_y":
+            step = dict(op=op, arg=draw(st.sampled_from([2.0, 0.5, -1.0, 3.0, 10.0, -0.1, 1.5])))
+        elif op == "smooth":
+            step = dict(op=op, arg=draw(smoothing(zero_weight=1)))
+        elif op == "trend":
+            spec = draw(st.one_of(st.tuples(st.just("lin"), fl(-5.0, 5.0)), st.tuples(st.just("quad"), fl(-5.0, 5.0)),
+                                  st.tuples(st.just("sin"), fl(0.1, 5.0), fl(0.5, 12.0))))
+            step = dict(op=op, arg=list(spec), normalized=True if spec[0] != "lin" else draw(st.booleans()))
+        else:
+            step = dict(op=op, arg=draw(fl(0.0, 40.0)), seed=draw(st.integers(0, 2 ** 31 - 1)))
+        step["tf"] = "default" if i == n - 1 else draw(tf)
+        steps.append(step)
+    case["steps"] = steps
+    case["tf0"] = draw(st.sampled_from(["default", "default", 0, 0.0, None]))
+    return case
+
+
+_FIRST_VERDICT = {}
+
+
+def history_body(ctx, case):
+    """A stale-cache fault keyed on object identities depends on which addresses the allocator hands out, so the same
+    case can fail in one execution and pass in the next.  A violation that was observed is real; it is remembered per
+    process and reported again when Hypothesis re-executes the identical case (otherwise Hypothesis would abort with
+    'flaky' instead of reporting it).  Cases that pass are never remembered, and a replay in a new process
+    (./check C16 --replay) evaluates the case afresh."""
+    key = digest(case)
+    msg = _FIRST_VERDICT.get(key)
+    if msg is None:
+        try:
+            _history(ctx, case)
+        except Violation as v:
+            msg = _FIRST_VERDICT[key] = v.msg
+    if msg is not None:
+        # one raise site outside the except block: Hypothesis identifies a failure by exception type, line and context
+        raise Violation(msg)
+
+
+def _history(ctx, case):
+    xi, yi = inputs(case)
+    w = Weaver(xi, yi)
+    snaps = []
+
+    def snapshot(tf, label):
+        # only Python floats are kept: no reference to any array of the Weaver survives this call, so that the
+        # arrays it replaces later are really released (an id()-keyed cache depends on that)
+        f = w.to_function() if tf == "default" else w.to_function(tf)
+        if not callable(f):
+            raise Violation(f"{label}: to_function returned {type(f).__name__}, not a callable")
+        xl = [float(v) for v in w.get()[0]]
+        yl = [float(v) for v in w.get()[1]]
+        probes = [xl[0] + t * (xl[-1] - xl[0]) for t in PROBE_T]
+        vs, vp = f(xl), f(probes)
+        snaps.append((label, xl, yl, probes, np.asarray(vs, dtype=float).tolist(),
+                      np.asarray(vp, dtype=float).tolist()))
+
+    with Fitpack() as fp:
+        if case["tf0"] is not None:
+            snapshot(case["tf0"], "to_function() on the new Weaver")
+        done = []
+        for step in case["steps"]:
+            op = step["op"]
+            if op == "trend":
+                w.trend(trend_fun(step["arg"]), normalized=step["normalized"])
+            elif op == "noise":
+                np.random.seed(step["seed"])
+                w.noise(step["arg"])
+            else:
+                getattr(w, op)(step["arg"])
+            done.append(op)
+            if step["tf"] is not None:
+                snapshot(step["tf"], "to_function() after " + " > ".join(done))
+        fresh = []
+        for label, xl, yl, probes, vs, vp in snaps:
+            g = Weaver(np.array(xl), np.array(yl)).to_function()
+            fresh.append(np.asarray(g(probes), dtype=float).tolist())
+    if fp.warned:
+        ctx.count("discarded_fitpack")
+        return
+    m = len(case["x"])
+    for (label, xl, yl, probes, vs, vp), fr in zip(snaps, fresh):
+        if len(xl) != m or len(yl) != m:
+            raise Violation(f"{label}: the series has {len(xl)} / {len(yl)} samples instead of {m}")
+        if len(vs) != m or len(vp) != len(probes) or not all(math.isfinite(v) for v in vs + vp):
+            raise Violation(f"{label}: the spline returns values of the wrong shape or non-finite values")
+        check_close(vs, yl, tol_for(yl, 1e-8), f"{label} does not pass through the current samples of get()")
+        check_close(vp, fr, tol_for(yl, 1e-8),
+                    f"{label} differs between the samples from the spline of a fresh Weaver holding the same samples")
+    cls = common_classes(case)
+    ops = [s_["op"] for s_ in case["steps"]]
+    cls |= {"op:" + o for o in ops}
+    cls.add(f"to_function-calls:{min(len(snaps), 5)}{'+' if len(snaps) >= 5 else ''}")
+    # two calls separated by >= 2 steps that replace y but not x (the address-reuse pattern)
+    last, y_only = None, 0
+    if case["tf0"] is not None:
+        last = -1
+    for i, s_ in enumerate(case["steps"]):
+        if s_["op"] in ("shift_x", "scale_x", "trend"):
+            y_only = -10 ** 6 if s_["op"] != "trend" else y_only + 1
+        else:
+            y_only += 1
+        if s_["tf"] is not None:
+            if last is not None and y_only >= 2:
+                cls.add("calls-separated-by->=2-y-replacements")
+            last, y_only = i, 0
+    if any(s_["tf"] in (0, 0.0) and s_["tf"] != "default" for s_ in case["steps"]) or case["tf0"] in (0, 0.0):
+        cls.add("explicit-s=0-call")
+    ctx.record(case, cls, nontrivial=len(snaps) >= 2)
 
 
 SUBCHECKS = [
@@ -460,4 +662,7 @@ SUBCHECKS = [
         clause="affine data are returned unchanged for every s (also omitted)"),
     Sub("default_s", "hyp", default_body, strategy=default_case, quick=400, thorough=8000,
         clause="s omitted means s = len(y)*var(y)"),
+    Sub("history", "hyp", history_body, strategy=history_case, quick=400, thorough=8000,
+        clause="to_function() taken repeatedly from ONE Weaver during a history of 3..8 steps passes through the "
+               "current get() samples every time and equals the spline of a fresh Weaver on the same samples"),
 ]
